@@ -89,14 +89,19 @@ def run(ctx, canary=False):
                 can.append(c)
         traces = can
     tl = [{k: v for k, v in t.items() if k != "cls"} for t in traces]
-    res = T.validate(ctx, "dp/LedgerTrace.tla", MC.LEDGER_CFG, tl, name="LedgerTrace", chunk=300, timeout=7200)
-    for t, (ok, reached, ln) in zip(traces, res):
+    res = T.validate2(ctx, "dp/LedgerTrace.tla", MC.LEDGER_CFG, MC.LEDGER_CFG_LENIENT, tl, name="LedgerTrace", chunk=300, timeout=7200)
+    for t, (ok, okl, reached, reachedl, ln) in zip(traces, res):
         if t.get("canary"):
             if ok:
                 raise MachineryError("canary accepted: " + t["canary"])
         elif ok:
             ctx.traces_validated += 1
+        elif okl:
+            ctx.deviation("%s stays within its budget on this pair, but does not follow the published budget arithmetic of Ledger.tla "
+                          "(primitive %d of %d: %s)" % (t["mech"], reached, len(t["events"]) - 1, t["events"][reached - 1] if reached <= len(t["events"]) else None),
+                          {"info": t["info"]})
         else:
+            reached = reachedl
             ev = t["events"][reached - 1] if reached <= len(t["events"]) else None
             ctx.violation("ledger of %s rejected by LedgerTrace.tla at primitive %d of %d (%s): the run does not follow the published budget "
                           "arithmetic or a primitive costs more than its charge" % (t["mech"], reached, len(t["events"]) - 1, ev),
